@@ -104,7 +104,7 @@ func roleSubset(rec *CallRecord, g *Gen) string {
 }
 
 func TestC03(t *testing.T) {
-	runHistories(t, historyCfg{prop: "C03", weights: c03Weights, minSteps: 10, maxSteps: 60, templates: c03Templates, templateP: 4, nontrivial: func(rec *CallRecord, g *Gen) (string, bool) {
+	runHistories(t, historyCfg{prop: "C03", weights: c03Weights, minSteps: 10, maxSteps: 60, templates: append(append([]func(g *Gen, run func(Op) bool){}, c03Templates...), awayRefundTemplates...), templateP: 4, nontrivial: func(rec *CallRecord, g *Gen) (string, bool) {
 		fn := rec.Call.Fn
 		if !(roleGatedFns[fn] || systemFns[fn] || accountFns[fn]) || !rec.V.Known {
 			return "", false
@@ -211,7 +211,7 @@ func c04RoundTrip(g *Gen) []Op {
 }
 
 func TestC04(t *testing.T) {
-	runHistories(t, historyCfg{prop: "C04", weights: c04Weights, minSteps: 12, maxSteps: 70, shadowOps: c04RoundTrip, shadowP: 3, templates: singleNFTTemplates, templateP: 12, nontrivial: func(rec *CallRecord, g *Gen) (string, bool) {
+	runHistories(t, historyCfg{prop: "C04", weights: c04Weights, minSteps: 12, maxSteps: 70, shadowOps: c04RoundTrip, shadowP: 3, templates: append(append([]func(g *Gen, run func(Op) bool){}, singleNFTTemplates...), awayRefundTemplates...), templateP: 8, nontrivial: func(rec *CallRecord, g *Gen) (string, bool) {
 		callerKind := "user"
 		if refIsSC(rec.Call.Caller) {
 			callerKind = "contract"
@@ -466,6 +466,88 @@ var singleNFTTemplates = []func(g *Gen, run func(Op) bool){
 		switch g.pick("ts-then", 3) {
 		case 0:
 			run(callOp(g.sysCall(g.shard(a), refBuiltInFunctionESDTUnFreeze, a, key)))
+		case 1:
+			run(callOp(g.sysCall(g.shard(a), refBuiltInFunctionESDTWipe, a, key)))
+		}
+	},
+}
+
+// awayRefundTemplates: an NFT / SFT leaves its holder towards another shard (single or multi transfer); while it travels the
+// system contract freezes that (token, nonce) by its composed key at the destination (so the delivery is refused and the
+// tokens come back) and - usually - at the sender as well, which holds none or only the rest of it: the flag then lives in a
+// zero-value entry without metadata (or beside the remainder). The refund must be accepted, must not touch either flag, and
+// the sender must stay unable to move the tokens until the system contract unfreezes it.
+var awayRefundTemplates = []func(g *Gen, run func(Op) bool){
+	func(g *Gen, run func(Op) bool) {
+		m := g.e.M
+		tok := pickFrom(g, "ar-tok", [][]byte{[]byte("SFT-0a0b0c"), []byte("NFT-112233")})
+		if _, busy := g.createRoleBusy(tok); busy || m.Issued[string(tok)] > 0 || m.NShards < 2 {
+			return
+		}
+		a := g.addr("ar-a")
+		var far [][]byte
+		for _, h := range g.holders {
+			if g.shard(h) != g.shard(a) {
+				far = append(far, h)
+			}
+		}
+		if len(far) == 0 {
+			return
+		}
+		b := far[g.pick("ar-b", len(far))]
+		if !run(callOp(g.sysCall(g.shard(a), refBuiltInFunctionSetESDTRole, a, tok, []byte(refESDTRoleNFTCreate), []byte(refESDTRoleNFTAddQuantity)))) {
+			return
+		}
+		total := pickFrom(g, "ar-total", []uint64{1, 3})
+		c := g.selfCall(refBuiltInFunctionESDTNFTCreate, a, tok, beNonce(total), []byte("n"), []byte{}, []byte("h"), []byte("a"), []byte("u"))
+		c.Gas, c.CallType, c.GasLocked = ampleGas, 0, 0
+		if !run(callOp(c)) {
+			return
+		}
+		nonce := beNonce(1)
+		key := append(cp(tok), nonce...)
+		qty := beNonce(pickFrom(g, "ar-qty", []uint64{1, total}))
+		send := func() *Call {
+			var call *Call
+			if g.pick("ar-via", 2) == 0 {
+				call = g.selfCall(refBuiltInFunctionESDTNFTTransfer, a, tok, nonce, qty, b)
+			} else {
+				call = g.selfCall(refBuiltInFunctionMultiESDTNFTTransfer, a, b, []byte{1}, tok, nonce, qty)
+			}
+			call.Gas, call.CallType, call.GasLocked = ampleGas, 0, 0
+			return call
+		}
+		if !run(callOp(send())) {
+			return
+		}
+		g.Shape = append(g.Shape[:0], "away-refund")
+		if !run(callOp(g.sysCall(g.shard(b), refBuiltInFunctionESDTFreeze, b, key))) {
+			return
+		}
+		if g.pick("ar-freeze-sender", 4) > 0 {
+			if !run(callOp(g.sysCall(g.shard(a), refBuiltInFunctionESDTFreeze, a, key))) {
+				return
+			}
+		}
+		// the refused delivery, then the refund
+		for round := 0; round < 2; round++ {
+			for _, msg := range m.pendingMsgs() {
+				if msg.Kind != "transfer" || len(msg.Items) == 0 || msg.Items[0].Suffix != string(key) {
+					continue
+				}
+				if !run(callOp(g.e.DeliveryCall(msg))) {
+					return
+				}
+			}
+		}
+		if !run(callOp(send())) {
+			return
+		}
+		switch g.pick("ar-then", 3) {
+		case 0:
+			if run(callOp(g.sysCall(g.shard(a), refBuiltInFunctionESDTUnFreeze, a, key))) {
+				run(callOp(send()))
+			}
 		case 1:
 			run(callOp(g.sysCall(g.shard(a), refBuiltInFunctionESDTWipe, a, key)))
 		}
